@@ -133,6 +133,7 @@ func checkC11(c *Ctx) {
 	c11Events(c)
 	c11PermHelpers(c)
 	c11DuringCallback(c)
+	c11OutOfRangeStored(c)
 	c.SetRule("one case = one characteristic (every zero-argument constructor of package characteristic, and custom characteristics with random " +
 		"subsets of {pr,pw,ev,hd,wr}) and a sequence of 1–8 operations: local updates, UpdateValueFromConnection, reads with get functions, and PUT " +
 		"/characteristics requests (value and/or ev entries) served by the real handler with a registered session; non-trivial = at least one step was refused by a " +
@@ -631,5 +632,61 @@ func c11DuringCallback(c *Ctx) {
 			c.Violate("C11: remote write to a characteristic without write permission invoked a callback", id, in, "no callback", fmt.Sprintf("%d callbacks", remoteCalls))
 		}
 		c.Count(id, true, "stream:during-callback")
+	}
+}
+
+// c11OutOfRangeStored: a characteristic without write permission whose stored value lies outside its declared range — the
+// application assigned the bound (a public field) after the value, or the value itself. Whatever a controller then writes:
+// nothing changes, no callback runs. (A remote write attempt is no occasion to "repair" the value either: it would change a
+// read-only characteristic on a controller's request, unnoticed by the application.)
+func c11OutOfRangeStored(c *Ctx) {
+	type tc struct {
+		name   string
+		mk     func() *characteristic.Characteristic
+		spoil  func(ch *characteristic.Characteristic)
+		writes []interface{}
+	}
+	cases := []tc{
+		{"CurrentTemperature, Value field assigned 180 (declared maximum 100)", func() *characteristic.Characteristic { return characteristic.NewCurrentTemperature().Characteristic },
+			func(ch *characteristic.Characteristic) { ch.Value = 180.0 }, []interface{}{20.0, 180.0, 181.0, "x"}},
+		{"CurrentTemperature 21.5, MinValue field assigned 30", func() *characteristic.Characteristic {
+			t := characteristic.NewCurrentTemperature()
+			t.SetValue(21.5)
+			return t.Characteristic
+		}, func(ch *characteristic.Characteristic) { ch.MinValue = 30.0 }, []interface{}{25.0, 21.5, 35.0}},
+		{"BatteryLevel 80, MaxValue field assigned 50", func() *characteristic.Characteristic {
+			b := characteristic.NewBatteryLevel()
+			b.SetValue(80)
+			return b.Characteristic
+		}, func(ch *characteristic.Characteristic) { ch.MaxValue = 50 }, []interface{}{10.0, 80.0, 60.0}},
+	}
+	for i, k := range cases {
+		id := fmt.Sprintf("out-of-range-stored#%d", i)
+		if c.Skip(id) {
+			continue
+		}
+		ch := k.mk()
+		k.spoil(ch)
+		before := ch.Value
+		calls := 0
+		ch.OnValueUpdate(func(_ *characteristic.Characteristic, n, o interface{}) { calls++ })
+		ch.OnValueUpdateFromConn(func(_ net.Conn, _ *characteristic.Characteristic, n, o interface{}) { calls++ })
+		for _, w := range k.writes {
+			in := map[string]interface{}{"characteristic": k.name, "perms": ch.Perms, "stored": fmt.Sprint(before), "min": fmt.Sprint(ch.MinValue), "max": fmt.Sprint(ch.MaxValue), "controller_writes": fmt.Sprint(w)}
+			msg, pan := safely(func() { ch.UpdateValueFromConnection(w, characteristic.TestConn) })
+			if pan {
+				c.Violate("C11: operation panics", id, in, "no panic", msg)
+				break
+			}
+			if !sameGoValue(ch.Value, before) {
+				c.Violate("C11: remote write changed a characteristic without write permission", id, in, fmt.Sprint(before), fmt.Sprint(ch.Value))
+				break
+			}
+			if calls > 0 {
+				c.Violate("C11: remote write to a characteristic without write permission invoked a callback", id, in, "no callback", fmt.Sprintf("%d callbacks", calls))
+				break
+			}
+		}
+		c.Count(id, true, "stream:out-of-range-stored")
 	}
 }
